@@ -164,7 +164,7 @@ def gen_nodes(rng, depth, n, in_section=False, zones=True):
             v = gen_value(rng)
             if v["t"] == "zone" and not zones:
                 v = gen_scalar(rng)
-            trail = rng.choice(COMMENTS) if (rng.random() < (0.3 if v["t"] == "list" else 0.15) and v["t"] != "zone") else None
+            trail = rng.choice(COMMENTS + [""]) if (rng.random() < (0.3 if v["t"] == "list" else 0.15) and v["t"] != "zone") else None
             nodes.append({"t": "assign", "lead": lead, "k": key, "v": v, "trail": trail})
         elif r < 0.9:
             ch = gen_nodes(rng, depth + 1, rng.choice([0, 1, 1, 2, 3]), zones=zones)
@@ -439,8 +439,9 @@ def r_nodes(w: Writer, sp: Spelling, nodes, indent: int):
                     w.w('"' + _escape(value_json(v)["s"]) + '"')
                 else:
                     r_value(w, sp, v, indent)
-                if n["trail"]:
-                    w.w(sp.choice("space", [" ", "  ", "   "]) + "//" + sp.choice("space", [" ", ""]) + n["trail"])
+                if n["trail"] is not None:
+                    # an empty end-of-line comment is written `//` (canonical: " //", no trailing blank)
+                    w.w(sp.choice("space", [" ", "  ", "   "]) + "//" + ((sp.choice("space", [" ", ""]) + n["trail"]) if n["trail"] else ""))
             _eol(w, sp)
         elif n["t"] == "block":
             w.w(" " * indent + n["k"])
